@@ -38,6 +38,8 @@ QUICK = [
     _c('halfhour_day_unit', 'contract_storage', dict(T=3, freq='30min', unit='d', wacc=True)),
     _c('window_inside', 'contract_storage', dict(T=4, win_s=(1, 3))),
     _c('window_straddle', 'contract_storage', dict(T=3, win_s=(-1, 2))),
+    _c('window_last_step_only', 'contract_storage', dict(T=4, win_s=(3, 4))),
+    _c('window_one_step_onevar', 'contract_storage', dict(T=3, eff=None, win_s=(1, 2), storage_kw=dict(costs=False))),
     _c('window_inside_repeated_setup', 'contract_storage', dict(T=4, win_s=(1, 3)), 'B', dict(warmup=True)),
     _c('in_portfolio_not_last', 'two_node', dict(T=2)),
     _c('two_nodes', 'two_node', dict(T=2, two_node_storage=True)),
